@@ -442,9 +442,10 @@ theorem plan_puts (c : Cfg) : ∃ ks : List Nat, (plan c).puts = ks.map (Ev.out 
   split at hk
   · simpa using hk
   · simp at hk
-theorem plan_timers (c : Cfg) : ∃ pass2 ph, (plan c).timers =
-    (armAll c.blocks { timers := initTimers c.blocks (plan c).started pass2, stopped := [], started := (plan c).started }
-      (putBlocksOf c.blocks (plan c).started ph)).timers := ⟨_, _, rfl⟩
+theorem plan_timers (c : Cfg) : ∃ pass1 pass2 ph, (plan c).timers =
+    (armAll c.blocks
+      { timers := initTimers c.blocks (plan c).started pass1 pass2, stopped := [], started := (plan c).started }
+      (putBlocksOf c.blocks (plan c).started ph)).timers := ⟨_, _, _, rfl⟩
 
 theorem puts_evs (ks : List Nat) : stops (ks.map (Ev.out · false)) = [] ∧
     starteds (ks.map (Ev.out · false)) = [] ∧ sabs (ks.map (Ev.out · false)) = [] ∧
